@@ -224,6 +224,26 @@ def run_shard(ctx):
     # strings every JSON encoder can write with \u escapes: lone surrogates (json.loads('"\\ud800"') yields one), astral and control characters
     # (a high surrogate directly followed by a low one is left out: it comes back as one astral character)
     special = ["\ud800", "\udfff", "x\udbff", "\udc00x", "\ud800 \udc00", "\U0001F600", "\x00", "\x7f", "\u2028\u2029", "\ufeff", "\uffff", "é", "\u00e9\u0301"]
+    # very long inputs (an encoder working in pieces must join them on a 3-octet boundary)
+    if ctx.shard == 1:
+        for n in ([2 ** 16 + 1, 2 ** 20 + 1, 2 ** 24 + 2, 2 ** 25 + 1, 2 ** 25 + 2, 2 ** 26 + 1] if ctx.tier == "thorough" else [2 ** 16 + 1, 2 ** 20 + 1, 2 ** 24 + 2, 2 ** 25 + 1, 2 ** 26 + 1]):
+            ctx.ev()
+            data = rng.randbytes(1 << 16) * (n // (1 << 16)) + rng.randbytes(n % (1 << 16))
+            o = call(u.urlsafe_b64encode, data)
+            ctx.count("roundtrip")
+            ctx.count("long_inputs")
+            ctx.nontrivial(("long", n))
+            if not o.ok:
+                ctx.violation(f"encode-raises:{o.etype}", f"urlsafe_b64encode of {n} octets raised {o.exc!r}", {"f": "long", "n": n})
+                continue
+            enc = o.value
+            if b"=" in enc or b"+" in enc or b"/" in enc or len(enc) != (n * 4 + 2) // 3:
+                ctx.violation("encoding-nonalphabet", f"urlsafe_b64encode of {n} octets: {len(enc)} characters (expected {(n * 4 + 2) // 3}), "
+                              f"'=' at {enc.find(b'=')}", {"f": "long", "n": n})
+            d = call(u.urlsafe_b64decode, enc)
+            if not d.ok or d.value != data:
+                ctx.violation("roundtrip-differs", f"urlsafe_b64decode(urlsafe_b64encode(x)) != x for {n} octets: " + (repr(d.exc) if not d.ok else "other octets"), {"f": "long", "n": n})
+            del data, enc
     # big but shallow headers (many small containers, braces inside strings): size is no reason to refuse a header
     for name, h in (("300-objects", {"x5c": ["a"], "list": [{"i": i} for i in range(300)]}), ("matrix", {"m": [[i, i + 1] for i in range(1000)]}),
                     ("braces-in-string", {"cty": "{[" * 50000}), ("many-members", {f"k{i}": i for i in range(5000)}), ("nested-100", None)):
